@@ -108,6 +108,16 @@ def run(chk):
         specials.append(('bundle of both versions', lambda: stix2.v21.Bundle(objects=[i21, stix2.v20.Identity(name='o', identity_class='individual')]), False))
         specials.append(('2.0 marking-definition with default created', lambda: stix2.v20.MarkingDefinition(definition_type='statement', definition=stix2.v20.StatementMarking('s')), False))
         specials.append(('2.0 marking-definition from a datetime', lambda: stix2.v20.MarkingDefinition(definition_type='statement', definition=stix2.v20.StatementMarking('s'), created=dtm.datetime(2020, 1, 1, 0, 0, 0, 123456)), False))
+        for us in (0, 1, 400, 999, 1000, 120000, 123000, 999999):
+            for aware in (True, False):
+                d = dtm.datetime(2020, 1, 1, 0, 0, 0, us, tzinfo=dtm.timezone.utc if aware else None)
+                nm = f'datetime input, microsecond={us}, {"aware" if aware else "naive"}'
+                specials.append(('2.0 statement marking-definition: ' + nm, lambda d=d: stix2.v20.MarkingDefinition(definition_type='statement', definition=stix2.v20.StatementMarking('s'), created=d), False))
+                specials.append(('2.0 identity: ' + nm, lambda d=d: stix2.v20.Identity(name='n', identity_class='individual', created=d, modified=d), False))
+                specials.append(('2.1 identity: ' + nm, lambda d=d: stix2.v21.Identity(name='n', created=d, modified=d), False))
+                specials.append(('2.1 marking-definition: ' + nm, lambda d=d: stix2.v21.MarkingDefinition(definition_type='statement', definition=stix2.v21.StatementMarking('s'), created=d), False))
+                specials.append(('2.1 indicator valid_from: ' + nm, lambda d=d: stix2.v21.Indicator(pattern="[file:name = 'a']", pattern_type='stix', valid_from=d), False))
+                specials.append(('2.0 bundle of a marking-definition: ' + nm, lambda d=d: stix2.v20.Bundle(objects=[stix2.v20.MarkingDefinition(definition_type='statement', definition=stix2.v20.StatementMarking('s'), created=d)]), False))
         specials.append(('observed-data with embedded objects (2.0)', lambda: stix2.v20.ObservedData(first_observed=G.T1, last_observed=G.T1, number_observed=1, objects={'0': {'type': 'file', 'name': 'f', 'size': 0}}), False))
         specials.append(('float property 1e21 / 0.1', lambda: stix2.v21.Location(latitude=0.1, longitude=-0.0, precision=1e21), False))
         specials.append(('nested extension with floats', lambda: stix2.v21.File(name='f', extensions={'raster-image-ext': {'exif_tags': {'a': 1.5, 'b': [1e-7, 2**53 + 1]}}}), False))
@@ -123,7 +133,7 @@ def run(chk):
         except Exception as ex: return (f'roundtrip#own output parses:{name}', f'{name}: cannot parse own output: {type(ex).__name__}: {str(ex)[:120]}', {'text': text[:300]})
         if type(back) is not type(o) or back != o: return (f'roundtrip#equal object:{name}', f'{name}: parse(serialize(o)) != o; {text[:200]} vs {back.serialize()[:200]}', {})
         if back.serialize() != text: return (f'roundtrip#byte-identical second serialization:{name}', f'{name}: {text[:160]} then {back.serialize()[:160]}', {})
-    chk.bounded('special shapes', specials, check_special, classify=lambda c: c[0], bound='12 hand-picked shapes from the property text (re-used timestamps, naive datetimes, year 999, empty and mixed bundles, defaulted marking-definition timestamps, floats)')
+    chk.bounded('special shapes', specials, check_special, classify=lambda c: c[0], bound=f'{len(specials)} shapes from the property text (re-used timestamps, year 999, empty and mixed bundles, defaulted marking-definition timestamps, floats; datetime inputs with 8 sub-second classes, aware and naive, on 6 timestamp-carrying constructors)')
 
     # ---- lookups must not be remembered across a later registration
     from stix2 import registry
